@@ -25,3 +25,7 @@ Proof. vm_compute. reflexivity. Qed.
 (* every non-zero channel-buffer option gives a non-empty pool *)
 Theorem pool_positive buf : 1 <= buf -> 1 <= pool_size lspec buf.
 Proof. intros H. rewrite pool_size_nonzero by lia. pose proof (ceval_ge _ pool_cap_mentions_buf buf). lia. Qed.
+(* ... and so does 0 on a source whose Reset builds the pool when it is still nil, with one slot more than the option
+   (holds since fix: b34bd23; on a tree without it the first case does not compute to a positive number) *)
+Theorem pool_always_positive buf : 1 <= pool_size lspec buf.
+Proof. destruct buf as [|b]; [vm_compute; lia | apply pool_positive; lia]. Qed.
